@@ -22,13 +22,16 @@ EXPLANATION = (
     'selects weights>0 & ~mask[large]. Not decided: dtype promotion, fill-value/Quantity interaction (numpy/astropy).')
 EXPLANATION_ADDED = (" Also (R2): the full-overlap shortcut of cutout is taken exactly when the small window has the mask's shape (stop-start of axis 0 and of axis 1); (R6) the mask operations read the current weight array and box only, no value derived once in the constructor.")
 EXPLANATION += EXPLANATION_ADDED
+EXPLANATION_ADDED2 = (" (R1 also) the image shape handed to get_overlap_slices is converted to Python integers before the slice arithmetic (C19.R8's shape clause): 'never a wrapped-around slice' also for a shape of numpy integer scalars.")
+EXPLANATION += EXPLANATION_ADDED2
 TRUSTED = ['numpy basic slicing returns a view; arithmetic returns a new array', 'np.zeros, np.copy']
 ASSUMPTIONS = ['external numpy calls are pure']
 
 
 def r1(ctx):
-    from .c19 import r5 as c19r5
+    from .c19 import r5 as c19r5, shape_clause
     c19r5(ctx)
+    shape_clause(ctx)       # "never a wrapped-around slice": also for an image shape given as numpy integer scalars
 
 
 def _mask_self(ctx, ev):
